@@ -6,6 +6,15 @@ import time
 from vmon import oracle, pipeline
 
 _bal = {}
+_TIMEOUT_RX = __import__("re").compile(r"time[\s-]?out|timed[\s-]out|time[\s-]limit|time[\s-]budget|cancel+ed|took too long|too slow",
+                                       __import__("re").I)
+
+
+def tainted(row):
+    """does this row say that a wall-clock budget fired?  (wording-tolerant: the message text is not part of any
+    property; rows so marked are excluded from run-vs-run comparison and counted)"""
+    return isinstance(row, dict) and isinstance(row.get("issue"), str) and bool(_TIMEOUT_RX.search(row["issue"]))
+
 
 
 def balancer(threshold=0, n_jobs=1, trace=True, **kw):
